@@ -802,38 +802,89 @@ class TermBuilder:
     _UNSIGNED = ("usize", "u64", "u32", "u16", "u8", "u128")
 
     def _clamp_idiom(self, preds, alts):
-        """`match v { 0 => 1, other => other }` / `if v == 0 { 1 } else { v }` on an unsigned v is max(v, 1): the join of the two
-        arms of a diamond whose test is `v == 0`, one arm giving the constant 1 and the other v itself"""
+        """Value idioms at the join of a diamond (one test, two arms, each arm giving a value):
+          `match v { 0 => 1, o => o }` / `if v == 0 { 1 } else { v }` on an unsigned v   is  max(v, 1);
+          `if p == L - 1 { 0 } else { p + 1 }` / `if p + 1 == L { 0 } else { p + 1 }`   is  ring::succ(p, L);
+          `if p == 0 { L - 1 } else { p - 1 }` / `match p { 0 => L - 1, _ => p - 1 }`   is  ring::pred(p, L).
+        The interval and rule engines have no path conditions on a phi, so these are normalised where the phi is built."""
         fn = self.fn
-        for (pc, ac), (px, ax) in ((tuple(zip(preds, alts))), tuple(zip(preds, alts))[::-1]):
-            if not (ac[0] == "const" and type(ac[1]) is int and ac[1] == 1) or ax[0] == "const":
-                continue
-            def up(b):
-                # the switch block above b through a chain of single-predecessor straight-line blocks; returns (switch, entered-at)
-                for _ in range(4):
-                    ps = fn.preds()[b]
-                    if len(ps) != 1:
-                        return None, None
-                    if fn.blocks[ps[0]].term.k == "switch":
-                        return ps[0], b
-                    b = ps[0]
-                return None, None
-            sc, ec = up(pc)
-            sx, ex = up(px)
-            if sc is None or sc != sx or ec == ex:
-                continue
-            t = fn.blocks[sc].term
-            arms = {int(v): b for v, b in t.j["arms"]}
-            other = t.j["otherwise"]
-            d = self.operand(t.discr, sc, len(fn.blocks[sc].stmts))
-            dty = t.j.get("discr_ty")
-            if dty in self._UNSIGNED and d == ax and arms == {0: ec} and other == ex:
-                return simplify(("op", "max", (ax, const(1))))
-            if dty == "bool" and set(arms) == {0} and d[0] == "op" and d[1] in ("Eq", "Ne") and len(d[2]) == 2 and const(0) in d[2] and ax in d[2]:
-                true_blk, false_blk = other, arms[0]
-                zero_blk = true_blk if d[1] == "Eq" else false_blk
-                if zero_blk == ec and {true_blk, false_blk} == {ec, ex} and self._unsigned_term(ax, sc):
-                    return simplify(("op", "max", (ax, const(1))))
+
+        def up(b):
+            # the switch block above b through a chain of single-predecessor straight-line blocks; returns (switch, entered-at)
+            for _ in range(4):
+                ps = fn.preds()[b]
+                if len(ps) != 1:
+                    return None, None
+                if fn.blocks[ps[0]].term.k == "switch":
+                    return ps[0], b
+                b = ps[0]
+            return None, None
+        (p1, a1), (p2, a2) = zip(preds, alts)
+        s1, e1 = up(p1)
+        s2, e2 = up(p2)
+        if s1 is None or s1 != s2 or e1 == e2:
+            return None
+        t = fn.blocks[s1].term
+        arms = {int(v): b for v, b in t.j["arms"]}
+        other = t.j["otherwise"]
+        if len(arms) == 2 and fn.blocks[other].term.k == "unreachable" and not fn.blocks[other].stmts:
+            # an exhaustive two-arm match (`match opt { None => .., Some(v) => .. }`): the second arm plays the otherwise edge
+            (va, ba), (vb, bb_) = sorted(arms.items())
+            arms, other = {va: ba}, bb_
+        if len(arms) != 1 or {other} | set(arms.values()) != {e1, e2}:
+            return None
+        d = self.operand(t.discr, s1, len(fn.blocks[s1].stmts))
+        dty = t.j.get("discr_ty")
+        (v0, b0), = arms.items()
+        # (cond, value when cond holds, value when it does not)
+        def payload(x):
+            # `Some(v) => v` on a checked operation: the payload is the operation's result
+            if x[0] == "field" and x[2] == "0" and x[1][0] == "variant" and x[1][2] == "Some" and x[1][1][0] == "call" and x[1][1][1] == "checked":
+                return x[1][1][2][0]
+            return x
+        if d[0] == "call" and d[1] == "discriminant" and d[2][0][0] == "call" and d[2][0][1] == "checked" and v0 in (0, 1) \
+                and d[2][0][2][0][0] == "op" and d[2][0][2][0][1] == "Sub" and d[2][0][2][0][2][1] == const(1):
+            # `match p.checked_sub(1) { Some(prev) => prev, None => .. }`: None exactly when p == 0
+            none_e = b0 if v0 == 0 else other
+            cond = ("op", "Eq", (d[2][0][2][0][2][0], const(0)))
+            a_true, a_false = (a1 if e1 == none_e else a2), payload(a1 if e1 != none_e else a2)
+        elif dty == "bool" and v0 == 0:
+            cond, a_true, a_false = d, (a1 if e1 == other else a2), (a1 if e1 == b0 else a2)
+        elif dty in self._UNSIGNED:
+            cond, a_true, a_false = simplify(("op", "Eq", (d, const(v0)))), (a1 if e1 == b0 else a2), (a1 if e1 == other else a2)
+        else:
+            return None
+        if cond[0] == "op" and cond[1] == "Ne" and len(cond[2]) == 2:
+            cond, a_true, a_false = ("op", "Eq", cond[2]), a_false, a_true
+        if cond[0] == "op" and cond[1] == "Not" and len(cond[2]) == 1:
+            cond, a_true, a_false = cond[2][0], a_false, a_true
+        if not (cond[0] == "op" and cond[1] == "Eq" and len(cond[2]) == 2):
+            return None
+        A, B = cond[2]
+        one, zero = const(1), const(0)
+        # clamp
+        if zero in (A, B) and a_true == one:
+            x = B if A == zero else A
+            if a_false == x and x[0] != "const" and (dty in self._UNSIGNED or self._unsigned_term(x, s1)):
+                return simplify(("op", "max", (x, one)))
+        # ring successor
+        if a_true == zero and a_false[0] == "op" and a_false[1] == "Add" and len(a_false[2]) == 2 and one in a_false[2]:
+            pterm = [y for y in a_false[2] if y != one]
+            if len(pterm) == 1:
+                pterm = pterm[0]
+                cands = [A, B] + [y for z in (A, B) if z[0] == "op" and z[1] in ("Sub", "Add") for y in z[2]]
+                for L in cands:
+                    if L[0] == "const" or L == pterm:
+                        continue
+                    # cond  <=>  p + 1 == L
+                    if linear_eq(("op", "Sub", (A, B)), ("op", "Sub", (("op", "Add", (pterm, one)), L))) or linear_eq(("op", "Sub", (B, A)), ("op", "Sub", (("op", "Add", (pterm, one)), L))):
+                        return ("call", "ring::succ", (pterm, L))
+        # ring predecessor
+        if zero in (A, B) and a_false[0] == "op" and a_false[1] == "Sub" and len(a_false[2]) == 2 and a_false[2][1] == one \
+                and a_true[0] == "op" and a_true[1] == "Sub" and len(a_true[2]) == 2 and a_true[2][1] == one:
+            pterm = B if A == zero else A
+            if a_false[2][0] == pterm and a_true[2][0][0] != "const":
+                return ("call", "ring::pred", (pterm, a_true[2][0]))
         return None
 
     def _unsigned_term(self, t, bb):
@@ -1054,6 +1105,12 @@ class TermBuilder:
                 and not self.fn.local_ty(l).startswith("&"):
             # m.insert(k, v) on a map that is only built up: the map afterwards holds the pair as well
             return ("push", self.local(l, b, i), ("tuple", (self.operand(t.args[1], cb, len(cblk.stmts)), self.operand(t.args[2], cb, len(cblk.stmts)))))
+        lty = fn.local_ty(l)
+        if not t.callee_is_local() and not lty.startswith("&") and (lty.endswith("Hasher") or lty.endswith("Hasher>")) and "BuildHasher" not in lty.split("::")[-1]:
+            # a hasher absorbing input (`hasher.write_usize(i)`, `obj.hash(&mut hasher)`): its state afterwards is a function of its
+            # state before and of what was fed to it
+            others = tuple(self.operand(a, cb, len(cblk.stmts)) for k, a in enumerate(t.args) if k != argi)
+            return ("call", "absorb:" + (t.callee_name() or "?"), (self.local(l, b, i),) + others)
         if not t.callee_is_local() or self.prog is None or self.prog.fn(t.callee()) is None:
             return ("clobber", l)
         before = self.local(l, b, i)   # value of l before the borrow
@@ -1066,7 +1123,85 @@ class TermBuilder:
         upd = self._apply_field_stores(t.callee(), argi, before, args)
         if upd is not None:
             return upd
+        upd = self._apply_scalar_store(t.callee(), argi, args)
+        if upd is not None:
+            return upd
         return ("call", "%s::out%d" % (t.callee(), argi + 1), tuple(args))
+
+    _SCALAR_REFS = ("&mut usize", "&mut u64", "&mut u32", "&mut u16", "&mut u8", "&mut isize", "&mut i64", "&mut i32", "&mut bool", "&mut f64")
+
+    def _apply_scalar_store(self, callee, argi, args):
+        """`fn incr(&self, pos: &mut usize) { *pos = if *pos == self.len() - 1 { 0 } else { *pos + 1 } }`: a small loop-free helper
+        with exactly one store through its `&mut <scalar>` parameter, executed on every path — the value afterwards is the stored
+        term over the arguments, when that term is free of joins (value idioms such as the ring successor are recognised first)."""
+        if self.prog is None or self.depth >= 3:
+            return None
+        g = self.prog.fn(callee)
+        if g is None or g.loop_heads() or len(g.blocks) > 16:
+            return None
+        p = argi + 1
+        if g.local_ty(p) not in self._SCALAR_REFS:
+            return None
+        key = ("scalar-out", callee, argi)
+        nb = [(bi, blk) for bi, blk in enumerate(g.blocks) if not blk.cleanup]
+        stores = []
+        for bi, blk in nb:
+            if blk.term.k == "call" and any(a.place is not None and a.place.local == p for a in blk.term.args):
+                return None
+            for si, st in enumerate(blk.stmts):
+                if st.k != "assign":
+                    continue
+                if st.place.local == p and st.place.proj:
+                    if len(st.place.proj) == 1 and st.place.proj[0]["k"] == "deref":
+                        stores.append((bi, si, st))
+                    else:
+                        return None
+                elif st.rv.k in ("ref", "rawptr") and st.rv.place is not None and st.rv.place.local == p and st.rv.j.get("bk") == "mut":
+                    return None
+                elif st.rv.k == "use" and st.rv.ops and st.rv.ops[0].place is not None and st.rv.ops[0].place.local == p and not st.rv.ops[0].place.proj:
+                    return None     # the pointer is copied
+        if not stores:
+            return None
+        rets = [b for b, blk in nb if blk.term.k == "return"]
+        if len(rets) != 1:
+            return None
+        sub = {i + 1: a for i, a in enumerate(args)}
+        if len(stores) == 1 and g.dominates(stores[0][0], rets[0]):
+            bi, si, st = stores[0]
+            tbg = TermBuilder(g, self.prog, sub, self.depth + 1)
+            v = tbg.rvalue(st.rv, bi, si)
+        else:
+            # stores on several paths (`if .. { *pos = 0 } else { *pos += 1 }`): promote the pointee to a local — every `*p` becomes a
+            # fresh local that starts as the value passed in — and take that local's value at the return (joins and their value
+            # idioms are then handled like for any other local)
+            import copy as _copy
+            from .ir import Fn as _Fn
+            gj = _copy.deepcopy({k: v_ for k, v_ in g.j.items() if k != "promoted"})
+            gj["promoted"] = g.j.get("promoted", [])
+            N = len(gj["locals"])
+            pointee = g.local_ty(p)[5:]
+            gj["locals"].append({"ty": pointee, "tyj": {"k": "prim", "name": pointee}, "mut": True})
+
+            def rewrite(x):
+                if isinstance(x, dict):
+                    if x.get("local") == p and isinstance(x.get("proj"), list) and len(x["proj"]) == 1 and x["proj"][0].get("k") == "deref":
+                        x["local"], x["proj"] = N, []
+                    for v_ in x.values():
+                        rewrite(v_)
+                elif isinstance(x, list):
+                    for v_ in x:
+                        rewrite(v_)
+            rewrite(gj["blocks"])
+            sp = gj["blocks"][0]["stmts"][0]["span"] if gj["blocks"][0]["stmts"] else gj["span"]
+            gj["blocks"][0]["stmts"].insert(0, {"k": "assign", "place": {"local": N, "proj": []},
+                                                "rv": {"k": "use", "op": {"k": "copy", "place": {"local": p, "proj": [{"k": "deref"}]}}}, "span": sp})
+            g2 = _Fn(gj, self.prog)
+            tbg = TermBuilder(g2, self.prog, sub, self.depth + 1)
+            v = tbg.local(N, rets[0], len(g2.blocks[rets[0]].stmts))
+        _closure_hook[0] = self._apply_closure_hook
+        if any(x[0] in ("unknown", "rec", "clobber", "phi") for x in subterms(v)):
+            return None
+        return v
 
     def _apply_field_stores(self, callee, argi, before, args):
         """`let mut s = S { a, b }; s.reset_b();` — when the helper only performs unconditional whole-field stores through its
